@@ -537,4 +537,49 @@ theorem records_to_off_file (recs : List Rec)
     · rw [hparse, List.map_map]; rfl
     · rw [hlen, List.length_map]
 
+/-- **Published records to the LJH3 file, any trigger mode.**  The LJH3 record carries its own length, so
+for ANY list of records a channel publishes inside a writing period (edge-multi records of varying length
+included), each shorter than 2^31 samples: the file exists iff there was a record and its body reads back
+as exactly those records in order, file length = header + Σ (24 + 2·length). -/
+theorem records_to_ljh3_file (recs : List Rec) (hdr : C05.Bytes)
+    (hlen : ∀ r ∈ recs, r.data.length < 2 ^ 31)
+    (batches : List (List C05.W3)) (hbat : batches.flatten = recs.map toW3) :
+    let fin := C05.run (C05.fmt3 hdr) {} (fileOps batches)
+    (recs = [] → C05.fileOf fin = none) ∧
+    (recs ≠ [] → ∃ file, C05.fileOf fin = some file ∧ file.take hdr.length = hdr ∧
+      C05.parseBody C05.parseLJH3 (file.drop hdr.length) = some (recs.map fun r => C05.expect3 (toW3 r)) ∧
+      file.length = hdr.length + (recs.map fun r => 24 + 2 * r.data.length).sum) := by
+  have hacc : ∀ b ∈ batches, ∀ r ∈ b, (C05.fmt3 hdr).accept r = true := fun _ _ _ _ => rfl
+  obtain ⟨hstop, htouch, haccd⟩ := fileOps_spec (C05.fmt3 hdr) batches hacc
+  have hany := any_nonempty_iff batches
+  rw [hbat] at hany
+  have hpub : ∀ b, C05.Op.publish b ∈ fileOps batches → ∀ r ∈ b, r.data.length < 2 ^ 31 := by
+    intro b hbm r hr
+    have hb' : b ∈ batches := by
+      simp only [fileOps, List.mem_cons, List.mem_append, List.mem_map] at hbm
+      rcases hbm with h | h | h | h
+      all_goals first | exact h | (obtain ⟨b', hb', h⟩ := h; injection h with h; subst h; exact hb') | cases h
+    have : r ∈ batches.flatten := List.mem_flatten.mpr ⟨b, hb', hr⟩
+    rw [hbat] at this
+    obtain ⟨x, hx, rfl⟩ := List.mem_map.mp this
+    exact hlen x hx
+  simp only
+  refine ⟨?_, ?_⟩
+  · intro hnil
+    have ht : C05.touched (ρ := C05.W3) {} (fileOps batches) = false := by
+      rw [htouch]
+      cases h : batches.any (fun b => !b.isEmpty) with
+      | false => rfl
+      | true => exact absurd (by rw [hnil]; rfl) (hany.mp h)
+    rw [C05.C05_file_is_header_plus_records _ _ hstop, ht]
+    simp
+  · intro hne
+    have ht : C05.touched (ρ := C05.W3) {} (fileOps batches) = true := by
+      rw [htouch]; exact hany.mpr (by simpa using hne)
+    obtain ⟨file, hf, htake, hparse, hlen'⟩ := C05.C05_body_parses_back_ljh3 hdr _ hpub hstop ht
+    rw [haccd, hbat] at hparse hlen'
+    refine ⟨file, hf, htake, ?_, ?_⟩
+    · rw [hparse, List.map_map]; rfl
+    · rw [hlen', List.map_map]; rfl
+
 end DastardV.Compose
